@@ -342,6 +342,14 @@ impl Worterbuch {
 
         let path: Vec<RegularKeySegment> = parse_segments(&key)?;
 
+        PersistentStorageImpl::check_registration(&key, &ValueEntry::Plain(value.clone()))
+            .map_err(|e| {
+                WorterbuchError::IoError(
+                    io::Error::other(e),
+                    "Failed to insert value into persistent storage".to_owned(),
+                )
+            })?;
+
         let (changed, ls_subscribers) = self.store.insert_plain(&path, value.clone(), force)?;
 
         self.persistent_storage
@@ -378,6 +386,14 @@ impl Worterbuch {
         check_for_read_only_key(&key, client_id)?;
 
         let path: Vec<RegularKeySegment> = parse_segments(&key)?;
+
+        PersistentStorageImpl::check_registration(&key, &ValueEntry::Cas(value.clone(), version))
+            .map_err(|e| {
+                WorterbuchError::IoError(
+                    io::Error::other(e),
+                    "Failed to insert value into persistent storage".to_owned(),
+                )
+            })?;
 
         let (changed, ls_subscribers) =
             self.store
